@@ -2,12 +2,16 @@
 """run every check registered in MANIFEST.json (quick tier by default) and print a summary"""
 import json, subprocess, sys, time, os
 tier = sys.argv[1] if len(sys.argv) > 1 else "quick"
-m = json.load(open("/verif/MANIFEST.json"))
+HERE = os.path.dirname(os.path.dirname(os.path.abspath(__file__)))
+m = json.load(open(os.path.join(HERE, "MANIFEST.json")))
+only = [a for a in sys.argv[2:]]
 bad = 0
 for c in m["checks"]:
+    if only and c["property_id"] not in only:
+        continue
     cmd = c["quick_cmd"] if tier == "quick" else c.get("thorough_cmd", c["quick_cmd"])
     t0 = time.time()
-    r = subprocess.run(cmd, shell=True, cwd="/verif", stdout=subprocess.PIPE, stderr=subprocess.STDOUT, env=dict(os.environ))
+    r = subprocess.run(cmd, shell=True, cwd=HERE, stdout=subprocess.PIPE, stderr=subprocess.STDOUT, env=dict(os.environ))
     out = r.stdout.decode(errors="replace")
     viol = [l for l in out.split("\n") if l.startswith("VIOLATION")]
     known = len([l for l in out.split("\n") if l.startswith("KNOWN-FINDING")])
